@@ -32,6 +32,22 @@ from .values import (
     pytype_name,
 )
 
+def _concat_args(e):
+    """flattened arguments of a z3 string concatenation"""
+    if z3.is_app(e) and e.decl().kind() == z3.Z3_OP_SEQ_CONCAT:
+        out = []
+        for c in e.children():
+            out.extend(_concat_args(c))
+        return out
+    return [e]
+
+
+def _lit(p):
+    from .ops import _unescape_z3
+
+    return _unescape_z3(p.as_string())
+
+
 _TYPES = ("int", "str", "bytes", "float", "bool", "tuple", "list", "dict", "type", "object", "set", "frozenset", "bytearray", "memoryview")
 
 
@@ -412,7 +428,7 @@ class BuiltinsMixin:
         and '_' separators, which int() also accepts, are over-approximated as 'either raises or
         returns an unconstrained integer')."""
         e = v.e
-        plain = z3.InRe(e, z3.Plus(z3.Range("0", "9")))
+        plain = z3.StrToInt(e) >= 0  # SMT-LIB: str.to_int is -1 unless the string is one or more ASCII digits
         weird = z3.InRe(
             e,
             z3.Concat(
@@ -422,7 +438,7 @@ class BuiltinsMixin:
                 z3.Star(z3.Union(z3.Re(" "), z3.Re("\t"), z3.Re("\n"))),
             ),
         )
-        k = self.run.fork([plain, z3.And(z3.Not(plain), weird), z3.Not(weird)], label="int(str)")
+        k = self.run.fork([plain, z3.And(z3.Not(plain), weird), z3.And(z3.Not(plain), z3.Not(weird))], label="int(str)")
         if k == 0:
             r = z3.StrToInt(e)
             self.run.assume(r >= 0)
@@ -451,6 +467,8 @@ class BuiltinsMixin:
             return self.int_to_str(v)
         if isinstance(v, (SOpaque, SExc)):
             return SOpaque("str()")
+        if v is None:
+            return "None"
         raise Unsupported(f"str() of {pytype_name(v)}")
 
     def make_bytes(self, v=b"", *enc):
@@ -605,6 +623,15 @@ class BuiltinsMixin:
                 d = -parts[0]
                 return SDec(obj.v % (10 ** d), d)
             raise Unsupported("slice of a decimal rendering other than [-d:] with d <= width")
+        if isinstance(obj, SStr) and parts[1] is None and parts[2] is None and isinstance(parts[0], SInt):
+            # s[len(p):] where s is syntactically p ++ rest: the rest, exactly (keeps later splits syntactic)
+            pieces = _concat_args(obj.e)
+            if len(pieces) >= 2:
+                for k in range(1, len(pieces)):
+                    head = z3.Concat(*pieces[:k]) if k > 1 else pieces[0]
+                    if z3.eq(z3.simplify(parts[0].e), z3.simplify(z3.Length(head))):
+                        rest = pieces[k:]
+                        return self.wrap_str(z3.Concat(*rest) if len(rest) > 1 else rest[0], obj.kind)
         if isinstance(obj, (SStr, SSeq, str, bytes)):
             e = self.to_z3(obj)
             n = z3.Length(e)
@@ -970,6 +997,21 @@ class BuiltinsMixin:
         kind = self.kind_of(s)
         e = self.to_z3(s)
         zsep = self.to_z3(sep)
+        # syntactic case: the string is a concatenation of pieces and literal separators, and every other piece
+        # is provably separator-free on this path (one solver query per piece): the split is read off directly
+        if maxsplit < 0 and isinstance(sep, (str, bytes)) and len(sep) == 1:
+            sepc = sep if isinstance(sep, str) else sep.decode("latin-1")
+            pieces = _concat_args(e)
+            if len(pieces) > 1 and all((z3.is_string_value(p) and _lit(p) == sepc) or not self.run.feasible(z3.Contains(p, zsep)) for p in pieces):
+                groups, cur = [], []
+                for p in pieces:
+                    if z3.is_string_value(p) and _lit(p) == sepc:
+                        groups.append(cur)
+                        cur = []
+                    else:
+                        cur.append(p)
+                groups.append(cur)
+                return SList([self.wrap_str(z3.Concat(*g) if len(g) > 1 else (g[0] if g else z3.StringVal("")), kind) for g in groups])
         limit = limit or getattr(self.c, "split_limit", 6)
         maxparts = maxsplit + 1 if maxsplit >= 0 else limit
         conds = []
@@ -1042,7 +1084,7 @@ class BuiltinsMixin:
     def m_text_isdigit(self, s):
         if isinstance(s, (str, bytes)):
             return s.isdigit()
-        return self.wrap_bool(z3.InRe(s.e, z3.Plus(z3.Range("0", "9"))))
+        return self.wrap_bool(z3.StrToInt(s.e) >= 0)  # ASCII digits (other Unicode digit classes are not modelled)
 
     # list / dict / set
     def m_list_append(self, lst, v):
